@@ -93,8 +93,10 @@ impl<'a> LongChain<'a> {
             // An empty segment would be exposed as an empty `chunk()` while bytes remain
             return;
         }
-        self.total_remaining_len += cow.len();
+        let len = cow.len();
+        // May panic on an out-of-range index: only count the segment once it is in
         self.data.insert(index, cow);
+        self.total_remaining_len += len;
     }
 
     /// Remove the last [`CowBytes`] from the [`LongChain`].
